@@ -266,7 +266,7 @@ func properties() map[string]*propDef {
 		Bounds:         map[string]interface{}{"path_bytes": 12, "segments": 3, "methods": "all methods of the table plus one foreign method", "tables": 12},
 		Assumptions:    commonAssumptions,
 		Rule:           "tables of the fragment (literal roots incl. nested, literal/plain-variable segments) x routers; per symbolic URL one dispatch per method, one OPTIONS dispatch through OPTIONSFilter, and a filter-less twin",
-		RequiredCovers: []string{"405", "options-nonempty"},
+		RequiredCovers: []string{"405", "options-nonempty", "undeclared-method-405"},
 	}
 	m["C08"] = &propDef{
 		ID: "C08",
@@ -334,18 +334,29 @@ func properties() map[string]*propDef {
 			}
 			seq := func(cfg, capN int) {
 				out = append(out, item{Harness: "H_C05_seq", Cfg: []int{cfg, capN},
-					Label: "two requests with the same symbolic Accept header to routes with different Produces lists (0: two paths, 1: one path told apart by Consumes, 2: built-in media types, 3: a Produces entry without writer), Accept capacity"})
+					Label: "two requests with the same symbolic Accept header (+10/+20: the earlier one carries only its first/second range) to routes with different Produces lists (0: two paths, 1: one path told apart by Consumes, 2: built-in media types, 3: a Produces entry without writer), Accept capacity"})
 			}
 			if tier == "quick" {
 				seq(0, 7)
 				seq(1, 7)
 				seq(2, 0)
 				seq(3, 7)
+				// the earlier request carries only the first (+10) / only the second (+20) range of the header
+				seq(10, 7)
+				seq(20, 7)
+				seq(11, 7)
+				seq(23, 7)
 			} else {
 				seq(0, 9)
 				seq(1, 9)
 				seq(2, 0)
 				seq(3, 8)
+				for _, fa := range []int{10, 20} {
+					seq(fa+0, 7)
+					seq(fa+1, 7)
+					seq(fa+2, 0)
+					seq(fa+3, 7)
+				}
 			}
 			if tier == "quick" {
 				add(0, 0, 8, 9)
@@ -659,16 +670,16 @@ func properties() map[string]*propDef {
 		ID: "C16",
 		Items: func(tier string, seed int) []item {
 			var out []item
-			label := "entity kind (JSON, XML), request body coding (none, gzip, deflate), compressor provider, writing call (bit 0 pretty print, 2 WriteEntity, 4 WriteHeaderAndEntity), Content-Type spelling (verbatim, +parameter suffix, absent with default, unregistered with default, unregistered without default), earlier requests (none, 5 kinds of broken body, a good one, two mixes)"
+			label := "entity kind (JSON, XML), request body coding (none, gzip, deflate, gzip in two members), compressor provider, writing call (bit 0 pretty print, 2 WriteEntity, 4 WriteHeaderAndEntity), Content-Type spelling (verbatim, +parameter suffix, absent with default, unregistered with default, unregistered without default), earlier requests (none, 5 kinds of broken body, a good one, two mixes, a good one of the other kind read under another default request content type)"
 			add := func(c ...int) { out = append(out, item{Harness: "H_C16", Cfg: c, Label: label}) }
 			wmodes := []int{0, 1, 2, 3, 4, 5}
 			if tier == "thorough" {
 				for kind := 0; kind < 2; kind++ {
-					for coding := 0; coding < 3; coding++ {
+					for coding := 0; coding < 4; coding++ {
 						for prov := 0; prov < 3; prov++ {
 							for _, wm := range wmodes {
 								for ct := 0; ct < 5; ct++ {
-									for hist := 0; hist < 9; hist++ {
+									for hist := 0; hist < 11; hist++ {
 										add(kind, coding, prov, wm, ct, hist)
 									}
 								}
@@ -681,9 +692,9 @@ func properties() map[string]*propDef {
 			// quick: two full sub-products, the remaining dimensions rotating with the seed
 			i := seed
 			for kind := 0; kind < 2; kind++ {
-				for coding := 0; coding < 3; coding++ {
+				for coding := 0; coding < 4; coding++ {
 					for prov := 0; prov < 3; prov++ {
-						for hist := 0; hist < 9; hist++ {
+						for hist := 0; hist < 11; hist++ {
 							i++
 							add(kind, coding, prov, wmodes[i%6], (i/6)%4, hist) // ctmode 4 (must fail) is in the second product
 						}
@@ -694,7 +705,7 @@ func properties() map[string]*propDef {
 				for _, wm := range wmodes {
 					for ct := 0; ct < 5; ct++ {
 						i++
-						add(kind, i%3, (i/3)%3, wm, ct, (i/9)%9)
+						add(kind, i%4, (i/4)%3, wm, ct, (i/12)%11)
 					}
 				}
 			}
@@ -702,13 +713,13 @@ func properties() map[string]*propDef {
 		},
 		Bounds: map[string]interface{}{"value": "a struct with an int64 field (all 2^64 values), a string field of <= 3 bytes in a-z, and for JSON an untyped field holding the same int64",
 			"content_type_suffix_bytes": 8, "earlier_requests": "0..2 before the judged one, sharing the compressor provider",
-			"configurations": "quick: 222 of the 4860 combinations (two full sub-products); thorough: all 4860"},
+			"configurations": "quick: 324 of the 7920 combinations (two full sub-products); thorough: all 7920"},
 		Assumptions: append([]string{
 			"TRUSTED, NOT CHECKED: encoding/json, encoding/xml, compress/gzip and compress/zlib themselves. Symbolically the serialisation of a value is an opaque token that the decoder of the same kind turns back into an equal value (a decoder of the other kind, a cut or destroyed token, or a body already read give an error); a compressed stream is an opaque token that the decompressor of the same coding opens (anything else gives an error). Natively (replay, differential) the real packages run. The statement's equality 'for every value in the codecs' common domain' and 'strings with any unicode' are therefore outside this check; what is decided is go-restful's part: reader selection by Content-Type spelling and default, decompressor selection by Content-Encoding, Reset of pooled readers, release bookkeeping, the number-preserving JSON decoder, errors instead of panics, independence from earlier requests",
 			"json numbers decoded into interface{} without UseNumber are modelled as float64: exact for |n| <= 2^53 and even n, arbitrary for odd n beyond",
 			"a Content-Type parameter suffix that itself contains '/' (could spell another registered media type) is left open"}, commonAssumptions...),
 		Rule:           "entity kind x body coding x provider x writing call x Content-Type spelling x history of earlier requests; per combination the value, the parameter suffix and the lengths are symbolic",
-		RequiredCovers: []string{"read-back", "large-integer", "earlier-broken-request", "earlier-good-request", "unusable-content-type", "content-type-with-parameter"},
+		RequiredCovers: []string{"read-back", "large-integer", "earlier-broken-request", "earlier-good-request", "earlier-request-other-kind", "unusable-content-type", "content-type-with-parameter"},
 	}
 	m["C15"] = &propDef{
 		ID: "C15",
@@ -721,15 +732,23 @@ func properties() map[string]*propDef {
 			for _, c := range cfgs {
 				out = append(out, item{Harness: "H_C15", Cfg: c, Label: "number of writing calls, CompressingResponseWriter underneath (0/1)"})
 			}
+			nseq := 2
+			if tier == "thorough" {
+				nseq = 3
+			}
+			for entry := 0; entry < 2; entry++ {
+				out = append(out, item{Harness: "H_C15_seq", Cfg: []int{nseq, entry}, Label: "requests in sequence through a container (or two), a trailing filter reading StatusCode()/ContentLength(); entry (Dispatch, ServeHTTP)"})
+			}
 			return out
 		},
 		Bounds: map[string]interface{}{"calls": "1..2 (thorough 3) chosen from Write, WriteHeader, WriteErrorString, WriteError, WriteEntity, WriteHeaderAndEntity, WriteAsJson, WriteAsXml, WriteHeaderAndXml",
-			"payload_bytes": 3, "failing_call_index": "0..6", "accepted_prefix": "0..8 bytes, at most the write's length"},
+			"payload_bytes": 3, "failing_call_index": "0..6", "accepted_prefix": "0..8 bytes, at most the write's length",
+			"request_sequences": "H_C15_seq: 2 (thorough 3) requests through one of two containers, each handler choosing one of 4 writing calls with symbolic payload/status; StatusCode()/ContentLength() read by a trailing container filter"},
 		Assumptions: append([]string{"JSON/XML marshalling is stubbed: output is an arbitrary byte string of <= 3 bytes; it fails exactly for the harness type vBadEntity (whose marshalling methods fail natively too), and nondeterministically for values of library types (ServiceError)",
 			"the precondition of the property (status set at most once and before any body byte) is assumed on the call sequence",
 			"with a CompressingResponseWriter underneath, the compressor is the typestate stub (accepts every write)"}, commonAssumptions...),
 		Rule:           "every sequence of the listed calls (symbolic choice per step) x pretty-print flag x position at which the underlying writer starts failing x accepted prefix lengths",
-		RequiredCovers: []string{"writer-failed", "compressed"},
+		RequiredCovers: []string{"writer-failed", "compressed", "sequence-observed"},
 	}
 	return m
 }
